@@ -365,3 +365,13 @@ def run(ctx):
     ctx.rule('C02.R7', 'BigInteger.write emits a two\'s-complement number: the magnitude bits are padded to a multiple of 64 with at least one leading zero (the sign bit) for every bit length (shared with C01.R3 sign-room)')
     from .c01 import check_biginteger_sign_room
     check_biginteger_sign_room(ctx, src.tree(PRIM), rule='C02.R7')
+    ctx.rule('C02.R8', 'the padding count kept in a TextString/ByteString after construction or decoding is in 0..7 and makes length + padding a multiple of 8 for every length residue: write_value emits exactly that many zero bytes, also when a decoded object is encoded again (lifted from C01.R3 padding-arithmetic)')
+    from ..report import Ctx as _Ctx
+    from . import c01 as _c01
+    sub = _Ctx('C01', 'quick', ctx.src, 0)
+    _c01.run(sub)
+    lifted = [f for f in sub.findings if f.rule == 'C01.R3' and 'padding' in f.key]
+    for f in lifted:
+        ctx.fail('C02.R8', f.key, f.site, f.message)
+    if not lifted:
+        ctx.ok('C02.R8', PRIM, 'padding counts are within 0..7 for all residues in constructor and reader of both classes')
